@@ -31,6 +31,19 @@ def gen_cases(seed_, n):
         if rng.random() < 0.6:
             opts["merge"] = [["percent", rng.choice([0.3, 0.5, 0.7])]] if rng.random() < 0.7 else [["number", rng.choice([1, 2])]]
         models = [["Root", jc["samples"]]]
+        if i % 8 == 3:
+            # several dissimilar parents, each holding sub-documents of the same few shapes: after merging, two or more distinct
+            # models are referenced by the same set of parents (layout bookkeeping keyed by that set)
+            nshapes = rng.randint(2, 8)
+            shapes = [{f"s{j}f{x}": rng.choice([1, "t", 2.5, True]) for x in range(rng.randint(2, 4))} for j in range(nshapes)]
+            sample = {}
+            for pi in range(rng.randint(2, 4)):
+                parent = {f"p{pi}own{x}": x for x in range(rng.randint(1, 3))}
+                for j in rng.sample(range(nshapes), rng.randint(2, nshapes)):
+                    parent[f"child{j}"] = dict(shapes[j]) if rng.random() < 0.7 else [dict(shapes[j])]
+                sample[f"parent{pi}"] = parent
+            models = [["Root", [sample]]]
+            opts["merge"] = rng.choice([[["exact"]], [["percent", 0.7], ["number", 10]], [["percent", 1.0]]])
         if rng.random() < 0.25:
             jc2 = gen.json_case(rng, profile="merge")
             models.append(["Second", jc2["samples"]])
